@@ -376,4 +376,93 @@ example : exProfile.dropFrames = [] ∧
     ((fetchStep exEnv id (fun _ => false) b!"local" [] exProfile () ()).map
       (fun q => (q.samples.length, q.functions.length))) = some (1, 2) := by decide
 
+/-! #### mapping file names through the fetch path — known finding
+`C12/driver/tables/url-like-file-without-buildid-cleared`
+
+Full statement (what "only adds names" asks for; FALSE of the code as it is, see the witness):
+
+    fetchStep … p = some q → p.dropFrames = [] →
+      q.mappings.map (fun m => (m.file, m.buildID)) = p.mappings.map (fun m => (m.file, m.buildID))
+      -- up to the documented substitution: a mapping with neither build id nor file that
+      -- collectMappingSources filled with the source URL gets no file back
+
+`unsourceMappings` clears the file of EVERY mapping without build id whose file parses as an
+absolute URL; it cannot tell the source URL it is meant to remove from a genuine name such as
+`C:\svc\server.exe`, `jar:file:/a.jar!/x.so` or `x:y`. Proved: the statement under the hypothesis
+that excludes such mappings; and a witness that it fails without it. -/
+
+theorem fetch_keeps_mapping_files_partial (env : Env σ τ) (prune : Profile → Profile)
+    (isAbsURL : Str → Bool) (mode : Str) (sources : Sources) (p : Profile) (s : σ) (t : τ) (q : Profile)
+    (hd : p.dropFrames = [])
+    (hx : ∀ m ∈ p.mappings, m.buildID = [] → isAbsURL m.file = false)
+    (h : fetchStep env prune isAbsURL mode sources p s t = some q) :
+    q.mappings.map (fun m => (m.file, m.buildID)) = p.mappings.map (fun m => (m.file, m.buildID)) := by
+  have hf := symbolize_frame_condition env mode sources p s t
+  simp only [] at hf
+  obtain ⟨_, _, _, _, _, h6, _, _, _, _, _, _, h13, _⟩ := hf
+  unfold fetchStep at h
+  simp only [] at h
+  split at h
+  · cases h
+  · rw [if_pos (by rw [h6]; exact hd)] at h
+    simp only [Option.some.injEq] at h
+    subst h
+    have key : ∀ m' ∈ (symbolize env mode sources p s t).profile.mappings,
+        m'.buildID = [] → isAbsURL m'.file = false := by
+      intro m' hm' hb
+      have hmem : (m'.id, m'.start, m'.limit, m'.offset, m'.file, m'.buildID) ∈
+          (symbolize env mode sources p s t).profile.mappings.map
+            (fun m => (m.id, m.start, m.limit, m.offset, m.file, m.buildID)) :=
+        List.mem_map.mpr ⟨m', hm', rfl⟩
+      rw [h13] at hmem
+      obtain ⟨m, hm, e⟩ := List.mem_map.mp hmem
+      simp only [Prod.mk.injEq] at e
+      obtain ⟨_, _, _, _, e5, e6⟩ := e
+      rw [← e5]
+      exact hx m hm (by rw [e6]; exact hb)
+    have hfb : p.mappings.map (fun m => (m.file, m.buildID)) =
+        ((symbolize env mode sources p s t).profile.mappings.map
+          (fun m => (m.id, m.start, m.limit, m.offset, m.file, m.buildID))).map
+          (fun x => (x.2.2.2.2.1, x.2.2.2.2.2)) := by
+      rw [h13, List.map_map]; rfl
+    rw [hfb]
+    simp only [unsourceMappings, List.map_map]
+    apply List.map_congr_left
+    intro m' hm'
+    simp only [Function.comp]
+    split
+    · rename_i hc
+      have := key m' hm' hc.1
+      rw [this] at hc
+      exact absurd hc.2 (by simp)
+    · rfl
+
+/-- the full statement fails: a valid profile whose only mapping has no build id and the file
+name `x:y` (an absolute URL for `url.Parse`) comes back without file name — with mode `none`, i.e.
+without any symbolization at all. -/
+theorem fetch_clears_url_like_file_witness :
+    ∃ (p q : Profile), p.Valid ∧ p.dropFrames = [] ∧
+      fetchStep (σ := Unit) (τ := Unit)
+        { tool := { openFile := fun _ _ => ((), .err "none"), buildID := fun _ => ((), []),
+                    sourceLine := fun _ _ => ((), .err "none"), close := fun _ => () },
+          isSourceURL := fun _ => false,
+          symz := { symbolzURL := fun _ => [], post := fun _ _ _ => ((), .err "none"), parseLine := fun _ => none },
+          filter := fun _ s => s }
+        id (fun f => f == b!"x:y") b!"none" [] p () () = some q ∧
+      p.mappings.map (fun m => (m.file, m.buildID)) = [(b!"x:y", [])] ∧
+      q.mappings.map (fun m => (m.file, m.buildID)) = [([], [])] :=
+  ⟨{ (default : Profile) with
+      mappings := [{ id := 1, start := 4096, limit := 8192, offset := 0, file := b!"x:y", buildID := [],
+                     hasFunctions := false, hasFilenames := false, hasLineNumbers := false, hasInlineFrames := false }] },
+   { (default : Profile) with
+      mappings := [{ id := 1, start := 4096, limit := 8192, offset := 0, file := [], buildID := [],
+                     hasFunctions := false, hasFilenames := false, hasLineNumbers := false, hasInlineFrames := false }] },
+   by decide⟩
+
+-- hypotheses of `fetch_keeps_mapping_files_partial` are satisfiable by a run that symbolizes
+example : exProfile.dropFrames = [] ∧ (∀ m ∈ exProfile.mappings, m.buildID = [] → (fun _ : Str => false) m.file = false) ∧
+    ((fetchStep exEnv id (fun _ => false) b!"local" [] exProfile () ()).map
+      (fun q => q.mappings.map (·.file))) = some [b!"/bin/a", b!"/lib/b.so"] := by
+  refine ⟨by decide, fun _ _ _ => rfl, by decide⟩
+
 end PV.Props.C12
